@@ -15,10 +15,10 @@ import (
 // vxSel matches every element and has a symbolic specificity.
 type vxSel struct{ spec selector.Specificity }
 
-func (vxSel) Match(n *html.Node) bool                { return n.Type == html.ElementNode }
-func (s vxSel) Specificity() selector.Specificity   { return s.spec }
-func (vxSel) String() string                         { return "*" }
-func (vxSel) PseudoElement() string                  { return "" }
+func (vxSel) Match(n *html.Node) bool             { return n.Type == html.ElementNode }
+func (s vxSel) Specificity() selector.Specificity { return s.spec }
+func (vxSel) String() string                      { return "*" }
+func (vxSel) PseudoElement() string               { return "" }
 
 func vxPrecedence(origin string, important bool) int {
 	switch {
